@@ -3,5 +3,5 @@
 cd /verif && exec env PYTHONPATH=/verif python3 -c "
 import sys
 from harness import common as C
-ok,out,cmd=C.coq_make(sys.argv[1:])
+ok,out,cmd=C.coq_make(sys.argv[1:], timeout=int(__import__('os').environ.get('COQMAKE_TIMEOUT','420')))
 print(out[-6000:]); sys.exit(0 if ok else 1)" "$@"
